@@ -74,6 +74,9 @@ func (m *MessageClientKeyExchange) Unmarshal(data []byte) error {
 	}
 
 	if m.KeyExchangeAlgorithm.Has(types.KeyExchangeAlgorithmEcdhe) {
+		if offset >= len(data) {
+			return dtlserrors.ErrBufferTooSmall
+		}
 		publicKeyLength := int(data[offset])
 		if publicKeyLength > len(data)-1-offset {
 			return dtlserrors.ErrBufferTooSmall
